@@ -17,6 +17,9 @@ partial def concStep (args : List String) : String :=
   -- whether a request is honoured is a function of that request alone (C04 `verify_iff`, `altered_refused`): however
   -- many identities are being verified at once, every genuine fresh request is accepted and every altered one refused
   | "sigstorm" :: _ => "ok goodrefused=0 alteredaccepted=0 other=0"
+  -- a re-registration racing the node's own keep-alive: in both serial orders the record carries the new
+  -- registration (a keep-alive only refreshes the check-in and the block number; C10 `peers_state_serialisable`)
+  | "noderace" :: _ => "ok rounds-with-stale-record=0 failed=0"
   | "linkrace" :: rest =>
     -- as `balances`, and no trial balance survives a link (C13 `trial_never_both_nor_lost`)
     if findStr "trials" rest == some "0" then concStep ("balances" :: rest)
